@@ -107,8 +107,8 @@ def r1_steps(ctx):
     if ok:
         a1 = norm(calls[0].args[1])
         tgt = loop.target.elts[-1].id if isinstance(loop.target, ast.Tuple) else getattr(loop.target, "id", "?")
-        ctx.check(a1.replace('"', "'") == f"{tgt}['otype']", SOLVER, "ExpressionSolver.solve",
-                  "step-loop passes the group's own otype", detail=a1, expected=f"{tgt}['otype']")
+        ctx.form(a1.replace('"', "'") == f"{tgt}['otype']", SOLVER, "ExpressionSolver.solve",
+                  "step-loop passes the group's own otype", detail=a1)
         # the class tuple is built from the same group's operator names, filtered only by configuration
         src = None
         a0 = calls[0].args[0]
@@ -119,9 +119,8 @@ def r1_steps(ctx):
         else:
             src = a0
         s = norm(src) if src is not None else ""
-        ctx.check(f"{tgt}['operators']" in s.replace('"', "'") and "self.operators[" in s, SOLVER,
-                  "ExpressionSolver.solve", "step-loop selects classes of the group's names", detail=s,
-                  expected=f"classes self.operators[o] for o in {tgt}['operators']")
+        ctx.form(f"{tgt}['operators']" in s.replace('"', "'") and "self.operators[" in s, SOLVER,
+                  "ExpressionSolver.solve", "step-loop selects classes of the group's names", detail=s)
 
 
 # ---------------------------------------------------------------- R2
@@ -268,12 +267,11 @@ def r5_scan(ctx):
         dflt = node.orelse
     d = [norm(s) for s in (dflt or [])]
     tok = norm(first.targets[0]) if isinstance(first, ast.Assign) else "token"
-    ctx.check(d in ([f"self.put_left({tok})"], [f"self.left.append({tok})"]), T, "Tokens.operate",
-              "non-matching token is pushed on the left stack", detail=d, expected=[f"self.put_left({tok})"])
+    ctx.form(d in ([f"self.put_left({tok})"], [f"self.left.append({tok})"]), T, "Tokens.operate",
+              "non-matching token is pushed on the left stack", detail=d)
     after = [norm(s) for s in fn.body[fn.body.index(lp) + 1:]]
     ok = after in (["self.right = self.left", "self.left = []"], ["self.right, self.left = (self.left, [])"])
-    ctx.check(ok, T, "Tokens.operate", "pass ends with right <- left, left <- []", detail=after,
-              expected=["self.right = self.left", "self.left = []"])
+    ctx.form(ok, T, "Tokens.operate", "pass ends with right <- left, left <- []", detail=after)
     # Expression primitives
     e = {"shift": ["self.left += self.right[:nchar]", "self.right = self.right[nchar:]"],
          "remove": ["self.right = self.right[len(string):]"]}
@@ -283,7 +281,7 @@ def r5_scan(ctx):
         got = [norm(s).replace(arg, "ARG") for s in fn.body if not K.is_docstring(s)]
         want2 = [w.replace("nchar", "ARG").replace("string", "ARG") for w in want]
         alt = [w.replace("self.left += ", "self.left = self.left + ") for w in want2]
-        ctx.check(got in (want2, alt), EXPR, f"Expression.{m}", "cursor primitive", detail=got, expected=want2)
+        ctx.form(got in (want2, alt), EXPR, f"Expression.{m}", "cursor primitive", detail=got)
     fn = ctx.fn(EXPR, "Expression.shift")
     dflt = fn.args.defaults
     ctx.check(len(dflt) == 1 and isinstance(dflt[0], ast.Constant) and dflt[0].value == 1, EXPR, "Expression.shift",
@@ -291,7 +289,7 @@ def r5_scan(ctx):
     fn = ctx.fn(EXPR, "Expression.pop_left")
     got = [norm(s) for s in fn.body if not K.is_docstring(s)]
     ok = any("self.left.strip()" in g for g in got) and "self.left = ''" in got and got[-1].startswith("return")
-    ctx.check(ok, EXPR, "Expression.pop_left", "returns stripped text and clears it", detail=got)
+    ctx.form(ok, EXPR, "Expression.pop_left", "returns stripped text and clears it", detail=got)
 
 
 # ---------------------------------------------------------------- R6
@@ -337,8 +335,8 @@ def r6_semantics(ctx):
             got = [norm(s) for s in fn.body]
             ok = len(got) == 2 and got[0].endswith("= tokens.get_right()") and \
                 got[1] == f"tokens.put_right({got[0].split(' = ')[0]}.logical_not())"
-            ctx.check(ok, m.relpath, f"{c.name}.operate_unary", "negates the token to its right and re-queues it",
-                      detail=got, expected=["right = tokens.get_right()", "tokens.put_right(right.logical_not())"])
+            ctx.form(ok, m.relpath, f"{c.name}.operate_unary", "negates the token to its right and re-queues it",
+                      detail=got)
     # atom dunders
     acls = ctx.repo.cls(ATOM, "AtomBase")
     nd = 0
@@ -617,12 +615,12 @@ def r8_parenthesis(ctx):
         return
     lp = loops[0]
     pre = [norm(s) for s in fn.body[: fn.body.index(lp)]]
-    ctx.check("super().__init__(expr)" in pre and "depth = 1" in pre and "self.args = []" in pre, OPERATORS,
+    ctx.form("super().__init__(expr)" in pre and "depth = 1" in pre and "self.args = []" in pre, OPERATORS,
               "OperatorPar.__init__", "consumes its own symbol, then starts at depth 1 with no arguments", detail=pre)
     base = ctx.fn(OPERATORS, "OperatorBase.__init__")
     s = [norm(x) for x in ast.walk(base) if isinstance(x, ast.Expr)]
-    ctx.check("expr.remove(self.symbol)" in s, OPERATORS, "OperatorBase.__init__",
-              "operator constructor consumes exactly its symbol", detail=s, expected=["expr.remove(self.symbol)"])
+    ctx.form("expr.remove(self.symbol)" in s, OPERATORS, "OperatorBase.__init__",
+              "operator constructor consumes exactly its symbol", detail=s)
     cells = 0
     for sym_is_open in (True, False):
         for lex in ("END", "OPEN", "FUNC", "SEP", "CLOSE", "OTHER"):
@@ -704,8 +702,8 @@ def r8c_tokeniser(ctx):
     var = f.target.id if isinstance(f.target, ast.Name) else None
     ifs = [n for n in f.body if isinstance(n, ast.If)]
     ok = len(ifs) == 1 and norm(ifs[0].test) == f"self.expr.right.startswith({var}.symbol)"
-    ctx.check(ok, SOLVER, "ExpressionSolver.solve", "operator recognised by its symbol prefixing the remaining text",
-              detail=[norm(i.test) for i in ifs], expected=f"self.expr.right.startswith({var}.symbol)")
+    ctx.form(ok, SOLVER, "ExpressionSolver.solve", "operator recognised by its symbol prefixing the remaining text",
+              detail=[norm(i.test) for i in ifs])
     if not ok:
         return
     body = ifs[0].body
@@ -725,17 +723,17 @@ def r8c_tokeniser(ctx):
         a = body[idx_atom]
         s = norm(a)
         ok = isinstance(a, ast.If) and len(a.body) == 1 and "self.tokens.append(self.tokens.atom(" in norm(a.body[0])
-        ctx.check(ok, SOLVER, "ExpressionSolver.solve", "non-empty text before an operator becomes one atom", detail=s)
+        ctx.form(ok, SOLVER, "ExpressionSolver.solve", "non-empty text before an operator becomes one atom", detail=s)
     # nested arguments solved with the same configuration
     nested = [c for c in ast.walk(ifs[0]) if isinstance(c, ast.Call) and dotted_name(c.func) == "ExpressionSolver"]
     ok = len(nested) == 1 and [norm(a) for a in nested[0].args] == ["self.tokens.atom", "self.operators", "self.steps"]
-    ctx.check(ok, SOLVER, "ExpressionSolver.solve", "arguments are solved by a nested solver with the same atom, operators and steps",
-              detail=[norm(c) for c in nested], expected="ExpressionSolver(self.tokens.atom, self.operators, self.steps)")
+    ctx.form(ok, SOLVER, "ExpressionSolver.solve", "arguments are solved by a nested solver with the same atom, operators and steps",
+              detail=[norm(c) for c in nested])
     argloop = [n for n in ast.walk(ifs[0]) if isinstance(n, ast.For)]
     ok = len(argloop) == 1 and norm(argloop[0].iter) == f"range(len({opvar}.args))" and \
         [norm(s) for s in argloop[0].body] == [f"{opvar}.args[{norm(argloop[0].target)}] = es.solve({opvar}.args[{norm(argloop[0].target)}])"]
     if argloop:
-        ctx.check(ok, SOLVER, "ExpressionSolver.solve", "every argument is replaced by its own value, in position",
+        ctx.form(ok, SOLVER, "ExpressionSolver.solve", "every argument is replaced by its own value, in position",
                   detail=[norm(s) for s in argloop[0].body])
     # for-else shifts one character
     els = [norm(s) for s in f.orelse]
@@ -746,14 +744,13 @@ def r8c_tokeniser(ctx):
     after = solve.body[solve.body.index(wl[0]) + 1:]
     ok = bool(after) and isinstance(after[0], ast.If) and "self.expr.pop_left()" in norm(after[0].test) and \
         "self.tokens.append(self.tokens.atom(" in norm(after[0].body[0])
-    ctx.check(ok, SOLVER, "ExpressionSolver.solve", "remaining text becomes the last atom",
+    ctx.form(ok, SOLVER, "ExpressionSolver.solve", "remaining text becomes the last atom",
               detail=norm(after[0]) if after else None)
     # leftover tokens rejected
     rs = [n for n in after if isinstance(n, ast.If) and any(isinstance(x, ast.Raise) for x in n.body)]
     t = norm(rs[0].test) if rs else None
     ok = t is not None and "len(self.tokens.left) > 0" in t and "len(self.tokens.right) > 1" in t and " or " in t
-    ctx.check(ok, SOLVER, "ExpressionSolver.solve", "unprocessed tokens are rejected", detail=t,
-              expected="len(self.tokens.left) > 0 or len(self.tokens.right) > 1")
+    ctx.form(ok, SOLVER, "ExpressionSolver.solve", "unprocessed tokens are rejected", detail=t)
 
 
 RULES = [
